@@ -62,6 +62,11 @@ class HVT(Harness):
             out.tag = dict(ctor="ValueError")
             out.ob("ctor_accepts_valid_bounds", False)
             return out
+        same_args = []
+        for a_, o_ in ((lb, o_lb), (ub, o_ub), (plb, o_plb), (pub, o_pub)):
+            same_args += [O.eq(x_, y_, 0.0) if (isinstance(x_, SV) or isinstance(y_, SV)) else (x_ == y_ or (x_ != x_ and y_ != y_))
+                          for x_, y_ in zip(np.asarray(_raw(a_)).ravel(), o_.ravel())]
+        out.ob("constructor_leaves_argument_arrays_unchanged", O.And(*same_args))
         alt = tuple(bool(v) for v in np.asarray(vt.apply_log_t).ravel())
         out.tag = dict(ctor="ok", log=list(alt))
         tl, tu, tpl, tpu = [np.asarray(_raw(a)) for a in (vt.lb, vt.ub, vt.plb, vt.pub)]
